@@ -97,12 +97,16 @@ func (c ControlHandler) HandlePing(h ws.Header) error {
 	// NOTE: We prefer ControlWriter with preallocated buffer to
 	// ws.WriteHeader because it performs one syscall instead of two.
 	w := NewControlWriterBuffer(c.Dst, c.State, ws.OpPong, p)
-	r := c.Src
+	// Read exactly h.Length bytes: Src may be the connection itself.
+	r := io.LimitReader(c.Src, h.Length)
 	if c.State.ServerSide() && !c.DisableSrcCiphering {
 		r = NewCipherReader(r, h.Mask)
 	}
 
-	_, err := io.Copy(w, r)
+	n, err := io.Copy(w, r)
+	if err == nil && n != h.Length {
+		err = io.ErrUnexpectedEOF
+	}
 	if err == nil {
 		err = w.Flush()
 	}
@@ -123,7 +127,11 @@ func (c ControlHandler) HandlePong(h ws.Header) error {
 	// A Pong frame MAY be sent unsolicited. This serves as a
 	// unidirectional heartbeat. A response to an unsolicited Pong frame
 	// is not expected.
-	_, err := io.CopyBuffer(ioutil.Discard, c.Src, buf)
+	// Read exactly h.Length bytes: Src may be the connection itself.
+	n, err := io.CopyBuffer(ioutil.Discard, io.LimitReader(c.Src, h.Length), buf)
+	if err == nil && n != h.Length {
+		err = io.ErrUnexpectedEOF
+	}
 
 	return err
 }
